@@ -23,6 +23,12 @@ CHECKS = {
  "C13": dict(cat="exploration", tech="differential runtime monitoring: key-range scan vs model filter vs unoptimized run; storage-level RowSetIterator(range) vs filter(scan)",
    text="SQL leg: ranges of every bound kind on keys of several types/positions with residuals and projections, compared with a Python model and the unoptimized statement; EXPLAIN only counts how many were pushed down. Storage leg: real RowSetIterator with KeyRange + start_rowid seek vs driver-side filtering of the written rows.",
    note="Storage leg drives the API as SecondaryTransaction::scan does (INT key = storage column 0, scanned first).", ref="6 C13"),
+ "C18": dict(cat="fault_enumeration", tech="fault injection on files (bit flips, overwrites, truncations) + differential monitor against the pristine answers",
+   text="Every sampled (thorough: every) single-bit flip, byte overwrite and truncation of every .col/.idx file of a CRC32 database is applied to a copy; the copy is opened in a fresh process, every table read 3 times, a compaction pass runs, tables are read again; each read must fail or return exactly the pristine rows and untouched tables must stay readable.",
+   note="One fixed database shape (2 tables, 5 row-sets, 64-byte blocks). Mutations of one file at a time. DV files and manifest belong to C04.", ref="6 C18"),
+ "C20": dict(cat="exploration", tech="round-trip runtime monitor: COPY TO then COPY FROM, multiset comparison of typed cells",
+   text="Random column type lists (12 types), contents with NULLs and delimiter/quote/newline characters, and CSV options; the re-imported table must equal the exported one.",
+   note="Decimals compared by value. Empty strings and HEADER only through the sentinels of their known findings.", ref="6 C20"),
 }
 
 def main():
